@@ -237,6 +237,10 @@ def validate_trace(module, cfg, events, *, workdir, nshards=NSHARDS, timeout=900
     """
     out = TraceOutcome()
     out.expected = len(events)
+    # per-action coverage of the trace spec = events consumed per kind (TLC's own -coverage
+    # instrumentation makes deep recursive evaluation orders of magnitude slower)
+    for e in events:
+        out.coverage[e.get("ev", "?")] = out.coverage.get(e.get("ev", "?"), 0) + 1
     shards = shard(events, nshards, group_key)
     os.makedirs(workdir, exist_ok=True)
 
@@ -248,7 +252,7 @@ def validate_trace(module, cfg, events, *, workdir, nshards=NSHARDS, timeout=900
         if extra_env:
             env.update(extra_env)
         r = tlc(module, cfg, workdir=os.path.join(workdir, "sh%02d" % i), workers=1, env=env, timeout=timeout,
-                xmx=xmx, xss="1g", deque=deque, coverage=True)
+                xmx=xmx, xss="1g", deque=deque, coverage=False)
         return i, sh, r
 
     t0 = time.time()
@@ -268,8 +272,6 @@ def validate_trace(module, cfg, events, *, workdir, nshards=NSHARDS, timeout=900
         out.stats.extend(r.tagged("STAT"))
         out.generated += r.generated
         out.distinct += r.distinct
-        for k, v in r.coverage.items():
-            out.coverage[k] = out.coverage.get(k, 0) + v
     out.wall = time.time() - t0
     return out
 
@@ -330,7 +332,10 @@ def finish(res):
         os.makedirs(rdir, exist_ok=True)
         replay = os.path.join(rdir, "%s_%s_%d.json" % (res.pid, res.tier, res.seed))
         with open(replay, "w") as f:
-            json.dump({"property": res.pid, "tier": res.tier, "seed": res.seed, "items": unknown[:50]}, f, indent=1)
+            json.dump({"property": res.pid, "tier": res.tier, "seed": res.seed, "count": len(unknown),
+                       "by_class": {c: sum(1 for i in unknown if i.get("cls") == c) for c in {i.get("cls") for i in unknown}},
+                       "items": [i for c in sorted({x.get("cls") for x in unknown}, key=str)
+                                 for i in [x for x in unknown if x.get("cls") == c][:80]]}, f, indent=1)
     cov = {
         "states": int(res.states), "transitions": int(res.transitions),
         "traces_validated_against_impl": int(res.traces),
